@@ -59,6 +59,17 @@ def build_bins(spec, ps):
         return StaticBinning(np.array(ps), includes_right_edge=spec.get("incl", True))
     if form == "numpy":
         return NumpyBinning(np.array(edges), includes_right_edge=spec.get("incl", True))
+    if form == "static_selected":
+        # a selection of bins taken from a binning that has already been used and inspected
+        import physt
+
+        parent = StaticBinning(np.array(spec["parent"]), includes_right_edge=spec.get("incl", True))
+        mid = (spec["parent"][0][0] + spec["parent"][0][1]) / 2
+        physt.h1(np.array([mid]), parent)
+        parent.is_consecutive()
+        parent.numpy_bins_with_mask
+        sel = spec["select"]
+        return parent[sel[1]:sel[2]] if sel[0] == "slice" else parent[list(sel[1])]
     if form == "fixed":
         return FixedWidthBinning(bin_width=spec["w"], bin_count=spec["n"], min=spec["min"])
     if form == "exp":
@@ -87,6 +98,18 @@ def make_data(case):
             warr = warr.reshape(k, -1)
         elif warr is not None:
             warr = np.array(warr).reshape(k, -1).tolist()
+        # the same logical arrays in another memory layout (element i, j keeps its weight i, j)
+        layout = case.get("layout")
+        if layout == "fortran":
+            arr = np.asfortranarray(arr)
+        elif layout == "transposed_view":
+            arr = np.ascontiguousarray(arr.T).T
+        elif layout == "both_fortran":
+            arr = np.asfortranarray(arr)
+            if isinstance(warr, np.ndarray):
+                warr = np.asfortranarray(warr)
+        elif layout == "weights_fortran" and isinstance(warr, np.ndarray):
+            warr = np.asfortranarray(warr)
     return arr, warr
 
 
@@ -201,7 +224,7 @@ def check_explicit(case, ctx: Ctx):
         ctx.refused("h1 integer dtype with float weights", physt.h1, arr, bins, **kwargs)
         return
     h = ctx.call("h1", physt.h1, arr, bins, **kwargs)
-    explicit = spec["form"] in ("edges_array", "edges_tuple", "edges_list", "pairs", "pairs_list", "static", "numpy")
+    explicit = spec["form"] in ("edges_array", "edges_tuple", "edges_list", "pairs", "pairs_list", "static", "numpy", "static_selected")
     assert_histogram(ctx, h, case, ps if explicit else None)
     if case["keep_missed"]:
         # bins identical with keep_missed off (metamorphic)
@@ -211,10 +234,27 @@ def check_explicit(case, ctx: Ctx):
 @st.composite
 def explicit_cases(draw, tier="quick"):
     form = draw(st.sampled_from(["edges_array", "edges_tuple", "edges_list", "pairs", "pairs", "pairs_list",
-                                 "static", "static", "numpy", "fixed", "fixed", "fixed", "exp"]))
+                                 "static", "static", "numpy", "fixed", "fixed", "fixed", "exp", "static_selected", "static_selected"]))
     spec = {"form": form}
     if form in ("pairs", "pairs_list", "static"):
         ps = draw(gen.pairs(1, 12))
+    elif form == "static_selected":
+        parent = draw(gen.pairs(2, 12, gapped=draw(st.sampled_from([False, False, True]))))
+        n_ = len(parent)
+        if draw(st.booleans()):
+            a = draw(st.integers(0, n_ - 1))
+            b = draw(st.integers(a + 1, n_))
+            sel = ["slice", a, b]
+            ps = [list(p) for p in parent[a:b]]
+        else:
+            idx = sorted(set(draw(st.lists(st.integers(0, n_ - 1), min_size=1, max_size=n_))))
+            sel = ["index", idx]
+            ps = [list(parent[i]) for i in idx]
+        if model.gaps(ps) and model.physt_consecutive(ps):
+            # a gap below physt's documented allclose tolerance is outside the domain (D30): take everything
+            sel = ["slice", 0, n_]
+            ps = [list(p) for p in parent]
+        spec.update(parent=parent, select=sel)
     elif form == "fixed":
         w = draw(st.sampled_from([0.1, 0.25, 0.3, 1.0, 2.5, 10.0, 1e-3, 7.0]))
         n = draw(st.integers(1, 10))
@@ -233,7 +273,7 @@ def explicit_cases(draw, tier="quick"):
         ps = [[10.0 ** (log_min + i * log_width), 10.0 ** (log_min + (i + 1) * log_width)] for i in range(n)]
     else:
         ps = draw(gen.pairs(1, 12, gapped=False))
-    if form in ("static", "numpy"):
+    if form in ("static", "numpy", "static_selected"):
         spec["incl"] = draw(st.booleans())
     dropna = draw(st.booleans())
     allow_nan = draw(st.sampled_from([False, False, True]))
@@ -245,6 +285,7 @@ def explicit_cases(draw, tier="quick"):
         "wform": draw(st.sampled_from(["array", "array", "list"])),
         "dtype": dtype, "keep_missed": draw(st.sampled_from([True, True, False])), "dropna": dropna,
         "rows": draw(st.sampled_from([None, None, 2, 3])), "as_int": draw(st.booleans()),
+        "layout": draw(st.sampled_from([None, "fortran", "transposed_view", "both_fortran", "weights_fortran"])),
     }
 
 
